@@ -403,6 +403,22 @@ def wl_readers(ctx, idx, rng):
     if not isinstance(lazy.data, da.Array):
         ctx.violation(o, "dask_read result is not Dask-backed", None, {"what": "container", "op": "dask_read"})
         return
+    # explicit chunks= (also splitting the time axis): same data as the eager read, for every scheduler
+    ck = (int(rng.integers(1, max(2, n))),) + tuple(int(rng.integers(1, d + 1)) for d in lazy.shape[1:])
+    lz2, exc2 = ctx.call(o, r.dask_read, off, n, where=f"dask_read(chunks={ck})", chunks=ck)
+    if exc2 is None:
+        ctx.count("oracle[dask_values]")
+        meta_equal(ctx, o, eager, lz2, {"op": "dask_read_chunks"})
+        try:
+            g2 = lz2.data.compute(scheduler=gen.pick(rng, ["synchronous", "threads"]))
+            if not np.array_equal(g2, np.asarray(eager.data)):
+                ctx.violation(o, f"dask_read(chunks={ck}) differs from the eager read (reader kind {kind})", None,
+                              {"what": "value_bitwise", "op": "dask_read_chunks"})
+            else:
+                ctx.count("nontrivial[dask]")
+        except Exception as e:
+            if not isinstance(e, Warning):
+                ctx.unexpected_exception(o, e, f"computing dask_read(chunks={ck})", {"what": "compute_raised", "op": "dask_read_chunks"})
     # pieces read lazily, concatenated and transformed, computed under threads
     c = int(rng.integers(1, n)) if n > 1 else 0
     for sc in ("synchronous", "threads"):
@@ -467,7 +483,9 @@ def wl_readers(ctx, idx, rng):
 
 def workloads(ctx):
     q = ctx.tier == "quick"
-    return [("ops", 420 if q else 16800, wl_ops), ("config", 24 if q else 480, wl_config), ("readers", 18 if q else 360, wl_readers)]
+    from .C20 import wl_fft         # pb.fft on NumPy vs sentinel-Dask arrays (axis/axes/n/s/norm keywords), as in C20
+    return [("ops", 420 if q else 16800, wl_ops), ("config", 24 if q else 480, wl_config), ("readers", 18 if q else 360, wl_readers),
+            ("fft", 336 if q else 6720, wl_fft)]
 
 
 def setup(ctx):
